@@ -871,3 +871,129 @@ M("C14", "json: word not escaped in format_seg", DC, "    word = json_escape(seg
 M("C14", "json: duration without +1", DC, "    dur = (double)(ef + 1 - sf) / frate;", "    dur = (double)(ef - sf) / frate;", "PROV.E4-values")
 M("C14", "json: alignment start without offset", DC, "    st = utt_start + (double)start / frate;", "    st = (double)start / frate;", "PROV.E4-values")
 M("C14", "json: prob of different call", DC, "    prob = logmath_exp(lmath, seg_iter_prob(seg, NULL, NULL));", "    prob = logmath_exp(lmath, 0);", "PROV.E4-values")
+
+# ---- C18 ----------------------------------------------------------------------
+M("C18", "fe: log floor dropped", "src/fe_sigproc.c", "mfspec[i] = log(mfspec[i] + LOG_FLOOR);", "mfspec[i] = log(mfspec[i]);", "LOG.floor")
+M("C18", "cmn_live_update: zero-count guard dropped (seed C18-1 core)", "src/cmn_live.c", """    if (cmn->nframe <= 0)
+        return;
+
+    E_INFO("Update from < %s >\\n", cmn->repr);
+    /* Update mean buffer */""", """    E_INFO("Update from < %s >\\n", cmn->repr);
+    /* Update mean buffer */""", "DIV.state")
+M("C18", "cmn_live: shiftwin called unconditionally", "src/cmn_live.c", """    if (cmn->nframe > CMN_WIN_HWM)
+        cmn_live_shiftwin(cmn);""", """    cmn_live_shiftwin(cmn);""", "DIV.state")
+M("C18", "cmn_live: shiftwin guard on nfr instead of nframe", "src/cmn_live.c", """    if (cmn->nframe > CMN_WIN_HWM)
+        cmn_live_shiftwin(cmn);""", """    if (nfr > CMN_WIN_HWM)
+        cmn_live_shiftwin(cmn);""", "DIV.state")
+M("C18", "cmn: revert zero-count fix", "src/cmn.c", """    if (cmn->nframe > 0) {
+        for (i = 0; i < cmn->veclen; i++) {
+            cmn->cmn_mean[i] = cmn->sum[i] / cmn->nframe;
+        }
+    }""", """    for (i = 0; i < cmn->veclen; i++) {
+        cmn->cmn_mean[i] = cmn->sum[i] / cmn->nframe;
+    }""", "DIV.state")
+M("C18", "cmn: revert zero-variance fix", "src/cmn.c", """            if (cmn->cmn_var[i] > 0)
+                cmn->cmn_var[i] = FLOAT2MFCC""", """            cmn->cmn_var[i] = FLOAT2MFCC""", "DIV.state")
+M("C18", "cmn: count guard tests n_frame instead", "src/cmn.c", """    if (cmn->nframe > 0) {
+        for (i = 0; i < cmn->veclen; i++) {""", """    if (n_frame > 0) {
+        for (i = 0; i < cmn->veclen; i++) {""", "DIV.state")
+M("C18", "cmn: count guard as != 0 (benign)", "src/cmn.c", """    if (cmn->nframe > 0) {
+        for (i = 0; i < cmn->veclen; i++) {""", """    if (cmn->nframe != 0) {
+        for (i = 0; i < cmn->veclen; i++) {""", None, "benign")
+M("C18", "cmn_live_update: guard as < 1 (benign)", "src/cmn_live.c", """    if (cmn->nframe <= 0)
+        return;
+
+    E_INFO("Update from < %s >\\n", cmn->repr);
+    /* Update mean buffer */""", """    if (cmn->nframe < 1)
+        return;
+
+    E_INFO("Update from < %s >\\n", cmn->repr);
+    /* Update mean buffer */""", None, "benign")
+M("C18", "noise: gain division unguarded", "src/fe_noise.c", """        if (noise_stats->signal[i] < noise_stats->max_gain * noise_stats->power[i])
+            noise_stats->gain[i] = noise_stats->signal[i] / noise_stats->power[i];
+        else
+            noise_stats->gain[i] = noise_stats->max_gain;""", """        noise_stats->gain[i] = noise_stats->signal[i] / noise_stats->power[i];
+        if (noise_stats->gain[i] > noise_stats->max_gain)
+            noise_stats->gain[i] = noise_stats->max_gain;""", "DIV.state")
+M("C18", "noise: signal floor dropped", "src/fe_noise.c", """        if (noise_stats->signal[i] < 1.0)
+            noise_stats->signal[i] = 1.0;""", """        if (noise_stats->signal[i] < 0.0)
+            noise_stats->signal[i] = 0.0;""", "DIV.state")
+M("C18", "ptm eval_topn: range test dropped", "src/ptm_mgau.c", """        if (d < (mfcc_t)MAX_NEG_INT32)
+            insertion_sort_topn(topn, i, MAX_NEG_INT32);
+        else
+            insertion_sort_topn(topn, i, (int32)d);""", """        insertion_sort_topn(topn, i, (int32)d);""", "CAST.range")
+M("C18", "s2 eval_cb: range test dropped", "src/s2_semi_mgau.c", """        if (d < (mfcc_t)MAX_NEG_INT32)
+            d_int = MAX_NEG_INT32;
+        else
+            d_int = (int32)d;""", """        d_int = (int32)d;""", "CAST.range")
+M("C18", "ms senone_eval: range test on wrong element", "src/ms_senone.c", """            if (fdist[t].dist < (mfcc_t)MAX_NEG_INT32)""", """            if (fdist[0].dist < (mfcc_t)MAX_NEG_INT32)""", "CAST.range")
+M("C18", "ptm norm: clamp dropped", "src/ptm_mgau.c", """                if (s->f->topn[i][j][k].score > MAX_NEG_ASCR)
+                    s->f->topn[i][j][k].score = MAX_NEG_ASCR;""", """                ;""", "CLAMP.upper")
+M("C18", "s2 norm: clamp before the negation", "src/s2_semi_mgau.c", """        s->f[feat][j].score = -((s->f[feat][j].score >> SENSCR_SHIFT) - norm);
+        if (s->f[feat][j].score > MAX_NEG_ASCR)
+            s->f[feat][j].score = MAX_NEG_ASCR;""", """        if (s->f[feat][j].score > MAX_NEG_ASCR)
+            s->f[feat][j].score = MAX_NEG_ASCR;
+        s->f[feat][j].score = -((s->f[feat][j].score >> SENSCR_SHIFT) - norm);""", "CLAMP.upper")
+M("C18", "ms senone_eval: downscale after the clamp", "src/ms_senone.c", """    /* Downscale scores. */
+    scr /= s->aw;
+
+    /* Avoid overflowing int16 */
+    if (scr > 32767)
+        scr = 32767;
+    if (scr < -32768)
+        scr = -32768;
+    return scr;""", """    /* Avoid overflowing int16 */
+    if (scr > 32767)
+        scr = 32767;
+    if (scr < -32768)
+        scr = -32768;
+    /* Downscale scores. */
+    scr *= s->aw;
+    return scr;""", "CLAMP.upper")
+M("C18", "ms mgau: active branch clamp dropped", "src/ms_mgau.c", """            int32 bs = senscr[s] - best;
+            if (bs > 32767)
+                bs = 32767;
+            if (bs < -32768)
+                bs = -32768;
+            senscr[s] = bs;
+            n = s;""", """            int32 bs = senscr[s] - best;
+            if (bs < -32768)
+                bs = -32768;
+            senscr[s] = bs;
+            n = s;""", "CLAMP.upper")
+M("C18", "ptm frame_eval: norm only on evaluated frames (seed C18-2 core)", "src/ptm_mgau.c", """        ptm_mgau_codebook_norm(s, featbuf, frame);""", """        if (frame % s->ds_ratio == 0)
+            ptm_mgau_codebook_norm(s, featbuf, frame);""", "NORM.frame")
+M("C18", "ptm senone_eval: best score not tracked", "src/ptm_mgau.c", """        if (ascore < bestscore)
+            bestscore = ascore;
+        senone_scores[sen] = ascore;""", """        if (i == 0)
+            bestscore = ascore;
+        senone_scores[sen] = ascore;""", "NORM.frame")
+M("C18", "ptm senone_eval: best subtracted from active only", "src/ptm_mgau.c", """    for (i = 0; i < s->n_sen; ++i) {
+        senone_scores[i] -= bestscore;
+    }""", """    for (i = 0; i < n_senone_active; ++i) {
+        senone_scores[i] -= bestscore;
+    }""", "NORM.frame")
+M("C18", "s2 frame_eval: norm skipped on downsampled frames", "src/s2_semi_mgau.c", """            s->topn_hist_n[topn_idx][i] = mgau_norm(s, i);""", """            if (frame % s->ds_ratio == 0)
+                s->topn_hist_n[topn_idx][i] = mgau_norm(s, i);""", "NORM.frame")
+M("C18", "ms mgau: best taken before evaluation", "src/ms_mgau.c", """        for (s = 0; (uint32)s < sen->n_sen; s++) {
+            senscr[s] = senone_eval(sen, s, msg->dist[sen->mgau[s]], topn);
+            if (best > senscr[s]) {
+                best = senscr[s];
+            }
+        }""", """        for (s = 0; (uint32)s < sen->n_sen; s++) {
+            senscr[s] = senone_eval(sen, s, msg->dist[sen->mgau[s]], topn);
+        }
+        best = 0;""", "NORM.frame")
+M("C18", "hmm 5st: s5 clamp dropped", "src/hmm.c", """        if (s5 WORSE_THAN WORST_SCORE)
+            s5 = WORST_SCORE;
+""", """""", "VIT.W")
+M("C18", "aligner: renorm margin negative", "src/state_align_search.c", "if ((sas->best_score - 0x300000) WORSE_THAN WORST_SCORE) {", "if ((sas->best_score + 0x300000) WORSE_THAN WORST_SCORE) {", "RENORM")
+M("C18", "hmm_normalize: floor scores shifted too", "src/hmm.c", """        if (hmm_score(h, i) BETTER_THAN WORST_SCORE)
+            hmm_score(h, i) -= bestscr;""", """        hmm_score(h, i) -= bestscr;""", "RENORM")
+M("C18", "cmn repr: passes use different formats", "src/cmn.c", """        ptr += snprintf(ptr, cmn->repr + len - ptr, "%g,",""", """        ptr += snprintf(ptr, cmn->repr + len - ptr, "%f,",""", "REPR")
+M("C18", "cmn repr: import splits on semicolon", "src/cmn.c", """           && (cc = strchr(c, ',')) != NULL) {""", """           && (cc = strchr(c, ';')) != NULL) {""", "REPR")
+M("C18", "cmn repr: import sets nframe to HWM", "src/cmn.c", """    ckd_free(vallist);
+    cmn->nframe = CMN_WIN;""", """    ckd_free(vallist);
+    cmn->nframe = CMN_WIN_HWM;""", "REPR")
+M("C18", "cmn repr: import bound dropped", "src/cmn.c", """    while (nvals < cmn->veclen
+           && (cc = strchr(c, ',')) != NULL) {""", """    while ((cc = strchr(c, ',')) != NULL) {""", "REPR")
